@@ -68,7 +68,9 @@ def gen_case(r, idx):
     tree[b"sel/sel"] = Node("dir", 0o755)
     tree[b"sel/sel/ect"] = Node("dir", 0o755)
     tree[b"sel/sel/ect/inner"] = Node("file", 0o644, data=[("bytes", b"decoy")])
-    for nm, tg in ((b"l_abs", b"/abs/target"), (b"l_pref", b"sel/ect/inner"), (b"l_abspref", b"/sel/ect/inner"), (b"l_dot", b"./x/../y"), (b"l_dbl", b"a//b"), (b"l_up", b"../sel/e")):
+    for nm, tg in ((b"l_abs", b"/abs/target"), (b"l_pref", b"sel/ect/inner"), (b"l_abspref", b"/sel/ect/inner"), (b"l_dot", b"./x/../y"), (b"l_dbl", b"a//b"), (b"l_up", b"../sel/e"),
+                   # the root name as a mere string prefix of the first component, and the root name alone
+                   (b"l_str", b"select/x"), (b"l_eq", b"sel"), (b"l_absstr", b"/selfie")):
         tree[b"sel/" + nm] = Node("slink", 0o777, target=tg)
     for nm in (b"s", b"se", b"sel/e", b"sel/ec", b"sel/ect2", b"other"):
         tree[nm] = Node("file", 0o644, data=[("bytes", nm)]) if nm != b"other" else Node("dir", 0o755)
